@@ -12,6 +12,7 @@ import FgaVerif.Model.ModFile
 import FgaVerif.Model.PGraph
 import FgaVerif.Model.WGraph
 import FgaVerif.Model.WAssign
+import FgaVerif.Proofs.WAssignCycle
 import FgaVerif.Spec.WeightsSem
 import FgaVerif.Gen.Atn
 import FgaVerif.Model.Conform
@@ -251,6 +252,8 @@ def opWAssign (m : Sexp) (order : List Sexp) : String :=
       let nm (ul : String) : String := ((names.find? (·.1 == ul)).map (·.2)).getD ul
       let inv (c : String) : String := ((names.find? (·.2 == c)).map (·.1)).getD c
       let ord := order.filterMap (fun x => match x with | .str s => some (inv s) | .atom s => some (inv s) | _ => none)
+      -- hypothesis of Props/C05.algorithm_prepass_sound: rewrite/computed edges end in nodes of the graph
+      if !WAssign.rclosedB g then "(unclosed)" else
       match WAssign.assignWeights g ord with
       | .error .modelCycle => "(err model-cycle)"
       | .error .tupleCycle => "(err tuple-cycle)"
